@@ -4,7 +4,7 @@ use std::sync::atomic::{AtomicBool, AtomicU32, Ordering};
 use vcore::proptest::prelude::*;
 use vcore::{Cx, Level, Res, Session};
 
-const RULE: &str = "a case is a scenario interpreted against a real emit_otlp emitter and the scripted local collector: transport {HTTP/JSON, HTTP/protobuf, gRPC} x gzip on/off x any non-empty subset of the three signals; per signal one small 'plug' event whose request the collector holds open, then 2-9 events with 300-700 KiB (sometimes tiny or >1 MiB) string payloads that accumulate into ONE batch which emit splits into 1..5+ size-limited requests; the collector answers the n-th request of that batch by script {ack, 4xx/5xx, non-zero grpc-status in trailers or in a Trailers-Only response, bare HTTP error on gRPC, close before reading, read then close, stall past the 30 s request timeout, ack then close}; optionally one signal's endpoint is down (refused / reset / 503) for the whole case; the application ends with blocking_flush or by dropping the emitter (while batches are queued, or while a failed request waits for its back-off). Families: split (no fault), fault (1-2 scripted failures), stall, outage, drop. Non-trivial = some signal's batch needed >= 2 requests, or >= 1 request failed.";
+const RULE: &str = "a case is a scenario interpreted against a real emit_otlp emitter and the scripted local collector: transport {HTTP/JSON, HTTP/protobuf, gRPC} x gzip on/off x any non-empty subset of the three signals; per signal one small 'plug' event whose request the collector holds open, then 2-9 events with 300-700 KiB (sometimes tiny or >1 MiB) string payloads that accumulate into ONE batch which emit splits into 1..5+ size-limited requests; the collector answers the n-th request of that batch by script {ack, 4xx/5xx, non-zero grpc-status in trailers or in a Trailers-Only response, bare HTTP error on gRPC, close before reading, read then close, stall past the request timeout (30 s, scaled by hook H3), ack then close}; optionally one signal's endpoint is down (refused / reset / 503) for the whole case; the application ends with blocking_flush or by dropping the emitter (while batches are queued, or while a failed request waits for its back-off). Families: split (no fault), fault (1-2 scripted failures), stall, outage, drop. Non-trivial = some signal's batch needed >= 2 requests, or >= 1 request failed.";
 
 /// Bounds shrinking cost: every evaluation of a scenario costs 0.1-30 s of real time.
 struct Guard {
@@ -66,6 +66,7 @@ fn fault_kind(wire: Wire, stall: bool) -> BoxedStrategy<Fault> {
             2 => Just(Fault::CloseBeforeRead),
             2 => Just(Fault::ReadThenClose),
             1 => Just(Fault::AckThenClose),
+            1 => Just(Fault::Stall),
         ]
         .boxed(),
         Wire::Grpc => prop_oneof![
@@ -75,6 +76,7 @@ fn fault_kind(wire: Wire, stall: bool) -> BoxedStrategy<Fault> {
             2 => Just(Fault::CloseBeforeRead),
             2 => Just(Fault::ReadThenClose),
             1 => Just(Fault::AckThenClose),
+            1 => Just(Fault::Stall),
         ]
         .boxed(),
     }
@@ -207,6 +209,9 @@ fn scenario(wire: Wire, family: Family, thorough: bool) -> BoxedStrategy<Scenari
 
 fn main() {
     timing::init();
+    // an emitter whose case has ended may keep retrying for its whole (scaled) retry budget, twice over
+    // (the batch in flight and the one queued behind it): ~8 s plus timeouts
+    collector::set_port_quarantine(std::time::Duration::from_secs(45));
     vcore::run(
         "C12",
         Level::FaultEnumeration,
@@ -222,30 +227,30 @@ fn main() {
         |s| {
             let quick = s.quick();
             let thorough = !quick;
-            s.require("multi-request-batch", if quick { 90 } else { 1500 });
-            s.require("failed-request", if quick { 60 } else { 1200 });
-            s.require("transport:http-json", if quick { 50 } else { 1000 });
-            s.require("transport:http-protobuf", if quick { 50 } else { 1000 });
-            s.require("transport:grpc", if quick { 50 } else { 1000 });
-            s.require("gzip:on", if quick { 50 } else { 1000 });
-            s.require("gzip:off", if quick { 50 } else { 1000 });
+            s.require("multi-request-batch", if quick { 200 } else { 2000 });
+            s.require("failed-request", if quick { 150 } else { 1500 });
+            s.require("transport:http-json", if quick { 100 } else { 1000 });
+            s.require("transport:http-protobuf", if quick { 100 } else { 1000 });
+            s.require("transport:grpc", if quick { 100 } else { 1000 });
+            s.require("gzip:on", if quick { 100 } else { 1000 });
+            s.require("gzip:off", if quick { 100 } else { 1000 });
             for f in ["status-5xx", "status-4xx", "close-before-read", "read-then-close", "grpc-status", "grpc-trailers-only-status", "grpc-http-status", "ack-then-close"] {
-                s.require(&format!("fault:{f}"), if quick { 2 } else { 60 });
+                s.require(&format!("fault:{f}"), if quick { 4 } else { 60 });
             }
-            s.require("fault:stall", if quick { 5 } else { 60 });
-            s.require("outage:refused", if quick { 3 } else { 60 });
-            s.require("outage:reset", if quick { 3 } else { 60 });
-            s.require("outage:503", if quick { 3 } else { 60 });
-            s.require("ending:drop-while-queued", if quick { 4 } else { 60 });
-            s.require("ending:drop-during-backoff", if quick { 4 } else { 60 });
+            s.require("fault:stall", if quick { 15 } else { 150 });
+            s.require("outage:refused", if quick { 4 } else { 60 });
+            s.require("outage:reset", if quick { 4 } else { 60 });
+            s.require("outage:503", if quick { 4 } else { 60 });
+            s.require("ending:drop-while-queued", if quick { 8 } else { 60 });
+            s.require("ending:drop-during-backoff", if quick { 8 } else { 60 });
 
             // (family, cases quick, cases thorough, parallel generator instances)
             let plan: [(Family, &str, u64, u64, usize); 5] = [
-                (Family::Split, "split", 12, 300, 2),
-                (Family::Fault, "fault", 14, 250, 4),
-                (Family::Outage, "outage", 6, 100, 2),
-                (Family::Drop, "drop", 5, 80, 2),
-                (Family::Stall, "stall", 1, 14, 3),
+                (Family::Split, "split", 20, 300, 2),
+                (Family::Fault, "fault", 30, 300, 4),
+                (Family::Outage, "outage", 8, 100, 2),
+                (Family::Drop, "drop", 10, 80, 2),
+                (Family::Stall, "stall", 12, 100, 1),
             ];
             let wires = [(Wire::HttpJson, "http-json"), (Wire::HttpProto, "http-protobuf"), (Wire::Grpc, "grpc")];
             // Cases mostly sleep (back-off, timeouts): every generator runs in its own thread at once.
